@@ -13,7 +13,8 @@ def stmt_text(k: str, i: int, rng: random.Random, fancy: bool) -> str:
         ty = rng.choice(["uint8", "saturated" + sp() + "uint8"]) if fancy else "uint8"
         return ty + sp() + "f%d" % i
     if k == "const":
-        val = rng.choice([str(i), "0x%x" % i, "%d + 0" % i, "0b%s" % bin(i)[2:]]) if fancy else str(i)
+        val = rng.choice([str(i), "0x%x" % i, "%d + 0" % i, "0b%s" % bin(i)[2:], "%d * 10 ** -1 * 10" % i, "%d / 3 * 3" % i,
+                          "%d ** 1" % i]) if fancy else str(i)
         return "uint16" + sp() + "C%d" % i + osp() + "=" + osp() + val
     if k == "kdef":         # the constant named K; its value is the (abstract) line it stands on
         return "uint8" + sp() + "K" + osp() + "=" + osp() + str(i)
@@ -296,6 +297,18 @@ def run_case(lines, out, seed: int, variants, roundtrip: bool):
                           [list(map(str, x)) for x in elog[n:n + 2]])]
                 elif problems:
                     d = [(p[0], str(p[1])[:200]) for p in problems[:3]]
+            if not d and status == "ok" and v == variants[0]:
+                # the model is a value: what its accessors hand out can be changed without changing the model
+                t0_ = res[0]
+                for obj in ([t0_.request_type, t0_.response_type] if hasattr(t0_, "request_type") else [t0_]):
+                    for acc in ("fields", "constants", "attributes", "fields_except_padding"):
+                        try:
+                            getattr(obj, acc).clear()
+                        except (AttributeError, TypeError):
+                            pass
+                got2 = project(status, res, prints, fp, to_abs)
+                if got2 != got:
+                    d = [("the model changed after lists returned by its accessors were cleared", str(got2)[:200], str(got)[:200])]
             if d:
                 bad.append({"variant": v, "text": text, "diff": d})
             elif roundtrip and status == "ok":
